@@ -56,7 +56,7 @@ def run(chk):
     maxn = 3 if chk.tier == 'quick' else 4
     chk.rule = ('flat: every ordered pair, triple%s of the 19 binary operators over distinct operands (exhaustive), through Parser::expression and through parse_source; '
                 'the Lean kernel `climb` (driver mode climb), the parser model and the implementation must all give specTree.  unary: every unary operator in every operand slot of every binary operator; '
-                'every unary operator before every postfix form.  parens: redundant and needed parentheses.  random mixtures to 10 operators.  non-trivial: >= 2 operators; distinct by text.' % (', quadruple' if maxn == 4 else ''))
+                'every unary operator before every postfix form.  operands: every ordered pair of binary operators over operands of every lexical kind (identifiers, numbers, runes, strings and raw strings with multi-byte text, postfix forms) written without blanks where the tokenisation allows.  parens: redundant and needed parentheses.  random mixtures to 10 operators.  non-trivial: >= 2 operators; distinct by text.' % (', quadruple' if maxn == 4 else ''))
     flat = []
     for n in range(1, maxn + 1):
         for ops in itertools.product(BIN, repeat=n):
@@ -121,6 +121,36 @@ def run(chk):
         if got != e:
             chk.oracle_fail('grouping-unary', m, s, got, e, 'a unary operator does not bind tighter than binary / looser than postfix')
     chk.count('unary', ucases, [s for m, s in ucases])
+    # operand forms: every pair of operators over operands of every lexical kind, written without blanks wherever the
+    # spec tokenisation allows it (a scanner that mis-measures an operand shifts the operator that follows it)
+    ATOMS = ['a', '世', 'x1', '1', '1.5', '0x1p-2', '2i', '`é`', '`ab`', '`日本\n語`', '"é"', '"a b"', "'é'", "'\\n'", 'f(x)', 'a.b', 'a[i]']
+    def joined(parts):
+        want = None
+        txt = ''
+        for k, part in enumerate(parts):
+            cand = txt + part
+            ref = gospec.tokens(cand, insert_semicolons=False)
+            exp_toks = gospec.tokens(' '.join(parts[:k + 1]), insert_semicolons=False)
+            if ref is not None and exp_toks is not None and [t[2] for t in ref] == [t[2] for t in exp_toks]: txt = cand
+            else: txt = txt + ' ' + part
+        return txt
+    ocases, oexp = [], []
+    for o1 in BIN:
+        for o2 in BIN:
+            for _ in range(2 if chk.tier == 'quick' else 12):
+                at = [rng.choice(ATOMS) for _ in range(3)]
+                parts = [at[0], o1, at[1], o2, at[2]]
+                ocases.append(('expr', joined(parts))); oexp.append(spec_tree(at, [o1, o2]))
+    for at0 in ATOMS:
+        for o1 in BIN:
+            ocases.append(('expr', joined([at0, o1, 'b', '||', 'c']))); oexp.append(spec_tree([at0, 'b', 'c'], [o1, '||']))
+    a, b = run_both(chk, 'operands', ocases)
+    for (m, s), e, line in zip(ocases, oexp, a):
+        x = expr_of(line, 'expr')
+        got = shape(x) if x is not None else None
+        if got != e:
+            chk.oracle_fail('grouping-operands', m, s, got, e, 'grouping differs from the spec precedence / associativity when the operands are literals or postfix forms written without blanks')
+    chk.count('operands', ocases, [s for m, s in ocases])
     # parentheses
     pcases, pexp = [], []
     for o1 in BIN:
@@ -143,5 +173,5 @@ def run(chk):
     chk.count('parens', pcases, [s for m, s in pcases])
     for (m, s), e in list(zip(ucases, uexp))[:2] + [(('expr', texts[400]), exp[400]), (('expr', texts[-1]), exp[-1])]:
         chk.sample({'mode': m, 'input': s, 'expected_grouping': e})
-    chk.programs = 2 * len(texts) + len(kc) + len(ucases) + len(pcases)
+    chk.programs = 2 * len(texts) + len(kc) + len(ucases) + len(pcases) + len(ocases)
     chk.disagreements_checked = chk.programs
